@@ -31,7 +31,11 @@ var (
 
 	c20ToFuncs = []function.Function{stdlib.MakeToFunc(cty.String), stdlib.MakeToFunc(cty.Number), stdlib.MakeToFunc(cty.Bool),
 		stdlib.MakeToFunc(cty.List(cty.String)), stdlib.MakeToFunc(cty.Set(cty.DynamicPseudoType)), stdlib.MakeToFunc(cty.Map(cty.String)),
-		stdlib.MakeToFunc(cty.DynamicPseudoType)}
+		stdlib.MakeToFunc(cty.DynamicPseudoType),
+		// "any type constraint that the convert package would accept": optional attributes included
+		stdlib.MakeToFunc(cty.ObjectWithOptionalAttrs(map[string]cty.Type{"a": cty.String, "b": cty.Number, "c": cty.Number}, []string{"b", "c"})),
+		stdlib.MakeToFunc(cty.List(cty.ObjectWithOptionalAttrs(map[string]cty.Type{"a": cty.String, "zz": cty.Bool}, []string{"zz"}))),
+		stdlib.MakeToFunc(cty.Map(cty.ObjectWithOptionalAttrs(map[string]cty.Type{"k": cty.DynamicPseudoType, "opt": cty.String}, []string{"opt"})))}
 )
 
 var typedSpecs = []typedSpec{
@@ -66,7 +70,8 @@ var typedSpecs = []typedSpec{
 	{"length", stdlib.LengthFunc, "q"}, {"lengthm", stdlib.LengthFunc, "m"}, {"equal", stdlib.EqualFunc, "aa"}, {"notequal", stdlib.NotEqualFunc, "aa"},
 	{"and", stdlib.AndFunc, "bb"}, {"or", stdlib.OrFunc, "bb"}, {"not", stdlib.NotFunc, "b"}, {"assertnotnull", stdlib.AssertNotNullFunc, "a"},
 	{"to0", c20ToFuncs[0], "a"}, {"to1", c20ToFuncs[1], "a"}, {"to2", c20ToFuncs[2], "a"}, {"to3", c20ToFuncs[3], "q"}, {"to4", c20ToFuncs[4], "q"},
-	{"to5", c20ToFuncs[5], "o"}, {"to6", c20ToFuncs[6], "a"},
+	{"to5", c20ToFuncs[5], "o"}, {"to6", c20ToFuncs[6], "a"}, {"to7", c20ToFuncs[7], "o"}, {"to7a", c20ToFuncs[7], "a"}, {"to8", c20ToFuncs[8], "q"},
+	{"to8a", c20ToFuncs[8], "a"}, {"to9", c20ToFuncs[9], "m"}, {"to9o", c20ToFuncs[9], "o"}, {"to9a", c20ToFuncs[9], "a"},
 }
 
 // typedArg chooses one argument: lower-case letters are shared pool values of a kind (falling back to any
